@@ -30,6 +30,9 @@ CLAIMS = {
  "C15": ("Structural clauses only: pointer/length agreement at call sites with constant lengths; every attribute class of radius_pkt_attr_add can succeed; the byte streams fed to MD5/HMAC-MD5 for the Request/Response Authenticator and the Message-Authenticator equal the RFC 2865/2866/3579/5176 streams for all 14 packet codes x authenticator mode x request presence x in-place output (342 cases), unknown codes fail, digest lands in the output argument; RFC 2865 5.2 password hiding equations for 1..3 blocks in encode and decode, separate and in-place buffers; DNS question/RR writer-reader agreement of field addresses, widths, byte orders and sizes; RADIUS append keeps header length and attribute length in step; QDCOUNT bumped exactly once on success; 16 header accessors are siblings; digests compared with timingsafe_bcmp. Whole-message byte identity with an independent RFC encoder, digest values and name round trips are NOT decided.",
          "Trusts clang 14 front end/CFG; the RFC streams as transcribed in props/c15.py; MD5/HMAC contexts behave as init/update*/final (C07).",
          "static analysis: partial evaluation of the builder/authenticator CFGs per argument class with a symbolic byte-content model (hash-input streams, hiding equations, writer/reader layouts), call-site pointer/length rule, path enumeration, sibling comparison"),
+ "C17": ("Structural clauses only: ini_buf_gen's writes are guarded by offset + pending <= buf_size (the clause 'generation into a smaller buffer fails without writing past it'); ini_buf_calc_size adds per line what ini_buf_gen writes per line under the same skip condition; the case-sensitive and case-insensitive lookup pairs use the right comparator and are otherwise identical; realloc_items' success contract (*allocated > count); every slot store / slot-opening memmove in ini.c is dominated by a successful reservation for the current count and a failing reservation leaves; no free of a line already stored in the array; interior pointers re-derived after a record is reallocated. Ordered-map behaviour over operation histories and text round-trip equality are NOT decided.",
+         "Trusts clang 14 front end/CFG; C semantics of realloc/reallocarray/free; ini->lines[] capacity is maintained only by realloc_items.",
+         "static analysis: guard evaluation over a finite grid covering every ordering of the compared quantities (partial evaluation), dominance and kill-path reachability on the CFG, sibling comparison, per-iteration effect counting"),
  "C10": ("Structural clauses only: the shared countdown field is accessed under its lock after publication (lock-set dataflow), pre-publication accesses cannot follow a send; no dereference of the shared record after the countdown's unlock (the clause 'does not touch the caller's memory afterwards'); the heap record of the completion form is freed/handed over on every path; per-target sent/failed accounting and returned failure count; single completion site guarded by zero that frees after the user callback; one-by-one token order. Once-per-thread / completion-after-all under interleavings is NOT decided.",
          "Trusts clang 14 CFG, pthread mutex semantics, tpt_msg_send returning 0 = ownership transferred.",
          "static analysis: lock-set dataflow, reachability after release point, path enumeration for ownership and accounting"),
